@@ -311,6 +311,8 @@ class Domain:
 
     def load_subscript(self, eng, e, st):
         base = eng.ev(e.value, st)
+        if isinstance(base, Opt) and isinstance(base.val, (tuple, ListV)):
+            base = base.val
         if isinstance(base, (tuple, ListV)):
             items = base if isinstance(base, tuple) else base.items
             if isinstance(e.slice, ast.Slice):
@@ -501,6 +503,13 @@ class Domain:
             return z3.And(*[self.same_value(a.fields[k], b.fields[k]) for k in a.fields]) if a.fields else z3.BoolVal(True)
         if isinstance(a, StrV) and isinstance(b, StrV):
             return a.id == b.id
+        if isinstance(a, tuple) and isinstance(b, tuple) and len(a) == len(b):
+            return z3.And(*[self.same_value(x, y) for x, y in zip(a, b)]) if a else z3.BoolVal(True)
+        if (isinstance(a, Opt) and b is NONE) or (isinstance(b, Opt) and a is NONE):
+            return (a if isinstance(a, Opt) else b).is_none
+        if isinstance(a, Opt) != isinstance(b, Opt):
+            o, v = (a, b) if isinstance(a, Opt) else (b, a)
+            return z3.And(z3.Not(o.is_none), self.same_value(o.val, v))
         if isz(a) and isz(b) and a.sort() == b.sort():
             return a == b
         if a is b:
@@ -542,7 +551,12 @@ class Domain:
             con = self.contracts.get(q)
             if con is not None:
                 for p in con.modifies:
-                    out.add(p[7:-1] if p.startswith('params[') else p.split('.')[-1])
+                    if p.startswith('params['):
+                        out.add(p[7:-1] if p[7:-1] != '*' else 'params!')
+                    elif p.endswith('.*'):
+                        out.add('*:' + p.split('.')[-2])       # every field of the object reached through attribute <name>
+                    else:
+                        out.add(p.split('.')[-1])
             else:
                 out |= self.repo.frame(q)
         return out
@@ -884,3 +898,70 @@ class BoundMethod:
 class RecBuilder:
     def __init__(self, cls):
         self.cls, self.fields = cls, {}
+
+
+class ParamsMixin:
+    """ParameterList values as stable symbols per key (int / bool keys; float keys in real mode), the effect of parameter updates,
+    and the derived contract of check_all_params: it returns all_ok == True only if every parameter is inside the type/range
+    table of ParameterList.param_type — the table is read from the source on this run (A-params)."""
+
+    def params_init(self, st):
+        for key, dflt in self.repo.param_defaults.items():
+            t = self.repo.param_types.get(key, (None,))[0]
+            if t == 'int':
+                st.heap[('params', key)] = fint('P_' + key)
+            elif t == 'bool':
+                st.heap[('params', key)] = fbool('P_' + key)
+            elif t == 'float' and self.float_mode in ('real', 'fp64'):
+                none_ok = self.repo.param_types[key][1]
+                v = freal('P_' + key) if self.float_mode == 'real' else z3.FP(fresh_name('P_' + key), z3.Float64())
+                st.heap[('params', key)] = Opt(fbool('P_' + key + '_none'), v) if none_ok else v
+
+    def params_get(self, eng, node, args, kw, st):
+        args = [a for a in args if not (isinstance(a, Ref) and a.cls == 'ParameterList')]
+        key = args[0] if args else None
+        if 'new_value' in kw or len(args) > 1:
+            if isinstance(key, StrV) and z3.is_int_value(key.id):
+                k = ('params', INTERN_REV[key.id.as_long()])
+                if k in st.heap:
+                    st.heap[k] = self.fresh_like('P', st.heap[k], st)
+            else:
+                for k in list(st.heap):
+                    if k[0] == 'params':
+                        st.heap[k] = self.fresh_like('P', st.heap[k], st)
+            return UNK
+        if isinstance(key, StrV) and z3.is_int_value(key.id):
+            k = ('params', INTERN_REV[key.id.as_long()])
+            if k in st.heap:
+                return st.heap[k]
+        return UNK
+
+    def params_check_all(self, eng, node, args, kw, st):
+        """all_ok, bad_keys = params.check_all_params(npt)"""
+        ok = fbool('all_ok')
+        npt = args[-1] if args else UNK
+        facts = []
+        for key, (t, none_ok, lo, hi) in self.repo.param_types.items():
+            v = st.heap.get(('params', key))
+            if v is None or t not in ('int', 'float'):
+                continue
+            isn = None
+            if isinstance(v, Opt):
+                isn, v = v.is_none, v.val
+            sub = st.copy()
+            sub.env['npt'] = npt
+            for bound, is_lo in ((lo, True), (hi, False)):
+                if isinstance(bound, ast.Constant) and bound.value is None:
+                    continue
+                b = eng.ev(bound, sub)
+                if isnum(b) and isnum(v):
+                    a_, b_ = (to_real(v), to_real(b)) if (isreal(v) or isreal(b)) else (v, b)
+                    f = (a_ >= b_) if is_lo else (a_ <= b_)
+                    facts.append(z3.Or(isn, f) if isn is not None else f)
+                elif isfp(v):
+                    f = self.compare('>=' if is_lo else '<=', v, b, sub)
+                    if isbool(f):
+                        facts.append(z3.Or(isn, f) if isn is not None else f)
+        if facts:
+            st.assume(z3.Implies(ok, z3.And(*facts)))
+        return (ok, UNK)
